@@ -150,6 +150,10 @@ CONFIGS = {
                          dom=INT, minlen=1, maxlen=3),
     "list_cint_0_2": dict(kind="list", trait=lambda: List(CInt, maxlen=2),
                           dom=CINT, minlen=0, maxlen=2),
+    "list_int_noitems": dict(kind="list",
+                             trait=lambda: List(Int, items=False,
+                                                maxlen=2),
+                             dom=INT, minlen=0, maxlen=2),
     "list_inst": dict(kind="list", trait=lambda: List(Instance(A)), dom=INST,
                       minlen=0, maxlen=None),
     "list_list": dict(kind="list",
